@@ -522,6 +522,8 @@ func runC03(h *H) {
 	}
 	// decoding into a recycled target (spare capacity holding old elements) = decoding into a fresh one
 	h.protoRecycle()
+	// messages with fields of defined (named) types
+	h.protoNamedC03()
 }
 
 func bucket(n int) int {
@@ -791,6 +793,8 @@ func runC12(h *H) {
 			}
 		}
 	}
+	// messages with fields of defined (named) types
+	h.protoNamedC12()
 }
 
 // ---- C16: MarshalTo for every buffer length -------------------------------------------------------
